@@ -747,6 +747,9 @@ func runC11(c *engine.Ctx) {
 		})
 		c.Floor(k, 1)
 	}
+
+	// ---- R16 ----
+	checkAcceptRetry(c, "R16")
 }
 
 // checkLastLeaveWakes (C11.R12, shared with C10.R17): the last member leaving a tcp / tcpmux group closes the group's
@@ -792,4 +795,69 @@ func checkLastLeaveWakes(c *engine.Ctx, rule string) {
 			}}, "last leave closes the hand-off channel")
 	}
 	c.Floor(n12, 2)
+}
+
+// checkAcceptRetry (C11.R16, shared with C13.R14): the accept loops of server/proxy decide, for every failed Accept,
+// between "back off and accept again" and "the listener is gone, stop". Retrying must be opted into by a positive
+// Temporary() verdict on the error: that is the class accept(2)'s transient failures (EMFILE, ENFILE, ECONNABORTED) fall
+// into — a Timeout()-only test ends the loop on the first of them and leaves a bound port nobody accepts on — and it
+// must never be the default: the close errors of the group and vhost listeners wrap nothing, so a loop that retries
+// "everything but net.ErrClosed" never ends and a departed group member keeps taking user connections.
+func checkAcceptRetry(c *engine.Ctx, rule string) {
+	c.Rule(rule, "in server/proxy, an accept loop that calls Accept again after a failed Accept does so only on paths where a Temporary() call on that error returned true; every other failed Accept leaves the loop")
+	p := c.P
+	n := 0
+	for _, f := range p.RepoFuncs() {
+		if f.Pkg == nil || f.Pkg.Pkg.Path() != engine.ModPath+"/server/proxy" {
+			continue
+		}
+		f := f
+		engine.ForEachInstr(f, func(in ssa.Instruction) {
+			call, ok := in.(*ssa.Call)
+			if !ok || !call.Call.IsInvoke() || call.Call.Method.Name() != "Accept" {
+				return
+			}
+			if !engine.IsNamed(call.Call.Value.Type(), "net", "Listener") {
+				return
+			}
+			if !engine.InstrReaches(call, call) {
+				return // not in a loop
+			}
+			n++
+			isErr := func(v ssa.Value) bool { cl, i := engine.ResultOfCall(v); return cl == call && i == 1 }
+			c.AllPaths(p.FuncName(f)+">accept-retry", engine.PathCheck{Fn: f, From: call, KeepLoopFacts: true,
+				Sink: func(x ssa.Instruction) bool { return engine.IsReturn(x) || x == ssa.Instruction(call) },
+				Pred: func(st *engine.PathState) string {
+					isNil, known := st.IsNil(isErr)
+					if !known || isNil || engine.IsReturn(st.Sink) {
+						return ""
+					}
+					// a failed Accept followed by another Accept: which verdict allowed it?
+					for _, l := range st.Lits {
+						if l.Op != token.ILLEGAL || !l.Val {
+							continue
+						}
+						cl, ok := l.X.(*ssa.Call)
+						if !ok {
+							continue
+						}
+						name := ""
+						if cl.Call.IsInvoke() {
+							name = cl.Call.Method.Name()
+						} else if o := engine.CalleeObj(cl); o != nil {
+							name = o.Name()
+						}
+						if name != "Temporary" {
+							continue
+						}
+						src := engine.Provenance(engine.CallArgs(cl)[0], engine.ProvOpts{})
+						if src.CallIns[call] {
+							return ""
+						}
+					}
+					return "Accept is called again after it failed on a path where the error was not found Temporary(): either transient accept failures end the loop (if the test is narrower) or a closed group / vhost listener is polled for ever (if retrying is the default)"
+				}}, "retry ⇔ Temporary()")
+		})
+	}
+	c.Floor(n, 1)
 }
